@@ -176,6 +176,7 @@ func verifLock()                         { verifRT.big.Lock() }
 func verifUnlock()                       { verifRT.big.Unlock() }
 func verifSymbolic() bool                { return false }
 func verifCut(s string)                  {}
+func verifSetRand(v int)                 {}
 func verifParam(name string, def int) int {
 	verifRT.mu.Lock()
 	defer verifRT.mu.Unlock()
